@@ -55,6 +55,7 @@ func replayMain(path string) int {
 		return 2
 	}
 	kind := fmt.Sprint(art.Replay["kind"])
+	art.Replay["_property"] = art.Property
 	r := replayers[kind]
 	if r == nil {
 		fmt.Fprintf(os.Stderr, "no replayer for artefact kind %q\n", kind)
